@@ -102,8 +102,11 @@ func c13Rules(p *core.Prog, r *core.Run) {
 		n := strings.Count(mbS, "call:addName(") + strings.Count(rbS, "call:addName(")
 		stray := strings.Contains(mbS, "Split(") || strings.Contains(rbS, "Split(")
 		r.Check("C13.NAMES", "name-encoder-sites", n == 4 && !stray, p.Pos(an.Pos()), "the four name-encoding sites (question, RR owner, NS/CNAME/PTR data, HTTPS target) all call the one helper (found %d) and no other encoder code splits a name into labels (%v)", n, !stray)
-		anS := normTokens(builderTokens(p, an, an.Params[0], nil, 0))
-		okShape := anS == `loop{ p8{ bytes:Split(TrimSuffix($p1,="."),=".")[] } } u8:=0`
+		// per path: a name is encoded as its labels followed by the zero octet, or
+		// (empty name, or no labels) as the zero octet alone
+		paths := builderPathTokens(p, an, an.Params[0], 64)
+		anS := strings.Join(paths, " || ")
+		okShape := anS == `loop{ p8{ bytes:Split(TrimSuffix($p1,="."),=".")[] } } u8:=0 || u8:=0`
 		// labels only for a non-empty trimmed name
 		guarded := false
 		for _, s := range callSites(p, core.Closures(an), `\(\*cryptobyte\.Builder\)\.AddUint8LengthPrefixed`) {
@@ -278,12 +281,61 @@ func c13Counts(p *core.Prog, r *core.Run, dec *ssa.Function) {
 		if idx < 0 {
 			continue
 		}
+		isSection := func(a *core.Expr) bool {
+			return a.Op == "field" && (a.Name == "Question" || a.Name == "Answer" || a.Name == "Authority" || a.Name == "Additional")
+		}
 		for b := range body {
 			for _, in := range b.Instrs {
 				if st, ok := in.(*ssa.Store); ok {
-					a := p.X(st.Addr)
-					if a.Op == "field" && (a.Name == "Question" || a.Name == "Answer" || a.Name == "Authority" || a.Name == "Additional") {
+					if a := p.X(st.Addr); isSection(a) {
 						got[idx] = a.Name
+					}
+				}
+			}
+		}
+		// or the loop accumulates into a local list that is stored into the
+		// section field afterwards
+		if _, done := got[idx]; !done {
+			acc := map[ssa.Value]bool{}
+			for _, in := range h.Instrs {
+				ph, ok := in.(*ssa.Phi)
+				if !ok {
+					continue
+				}
+				for _, e := range ph.Edges {
+					if c, ok := e.(*ssa.Call); ok && body[c.Block()] {
+						if bi, ok := c.Call.Value.(*ssa.Builtin); ok && bi.Name() == "append" && c.Call.Args[0] == ssa.Value(ph) {
+							acc[ph] = true
+						}
+					}
+				}
+			}
+			for _, b := range dec.Blocks {
+				for _, in := range b.Instrs {
+					st, ok := in.(*ssa.Store)
+					if !ok || !isSection(p.X(st.Addr)) {
+						continue
+					}
+					seen := map[ssa.Value]bool{}
+					var from func(v ssa.Value, d int) bool
+					from = func(v ssa.Value, d int) bool {
+						if acc[v] {
+							return true
+						}
+						ph, ok := v.(*ssa.Phi)
+						if !ok || seen[v] || d > 4 {
+							return false
+						}
+						seen[v] = true
+						for _, e := range ph.Edges {
+							if from(e, d+1) {
+								return true
+							}
+						}
+						return false
+					}
+					if from(st.Val, 0) {
+						got[idx] = p.X(st.Addr).Name
 					}
 				}
 			}
